@@ -17,7 +17,14 @@ import (
 	"time"
 )
 
-const verifRoot = "/verif"
+// verifRoot is where evidence/, replays/ and KNOWN_FINDINGS.txt live (the
+// check script exports its own directory; /verif by default).
+var verifRoot = func() string {
+	if v := os.Getenv("VERIF_ROOT"); v != "" {
+		return v
+	}
+	return "/verif"
+}()
 
 // Agg is the aggregate over all shards, given to Floor and written as evidence.
 type Agg struct {
